@@ -249,6 +249,7 @@ inductive Err where
   | keyId (i : Nat)                         -- KeyError: ids[id(arg)] in the tracer
   | notImplemented (n : Node)               -- NotImplementedError(type(f).__name__)
   | name (s : String)                       -- NameError in printed code
+  | reserved                                -- ValueError: input named ops / set_backend
   | fuel
   deriving DecidableEq, Repr
 
@@ -383,7 +384,7 @@ def compile (e : Expr) : Except Err Prog :=
   | none => .error .fuel
   | some ord => compileWith ord (inputsOf e)
 
-/-! ## as_code (funsor/ops/program.py:56-87) and its execution -/
+/-! ## as_code (funsor/ops/program.py:56-98) and its execution -/
 
 inductive Rhs where
   | const (k : Nat)                         -- `v{i} = <constant literal>`
@@ -393,6 +394,7 @@ inductive Rhs where
 
 structure Code where
   params : List String                      -- `def program(<params>):`
+  pfx : Nat                                 -- temporaries are called `"_"*pfx + "v" + str(i)`
   lets : List (Nat × Rhs)                   -- `v{i} = rhs`, i = len(lines) - start at the time of printing
   ret : Option Nat                          -- `return v{len(lines) - start - 1}`; `none` when that is `v-1`
   deriving DecidableEq, Repr
@@ -400,64 +402,92 @@ structure Code where
 /-- `let(body)`. -/
 def codeLet (lines : List (Nat × Rhs)) (r : Rhs) : List (Nat × Rhs) := lines ++ [(lines.length, r)]
 
-def asCode (p : Prog) : Code :=
-  let l1 := p.constants.foldl (fun ls k => codeLet ls (.const k)) []
-  let l2 := p.inputs.foldl (fun ls n => codeLet ls (.name n)) l1
-  let l3 := p.operations.foldl (fun ls o => codeLet ls (.call o.1 o.2)) l2
-  ⟨p.inputs, l3, if l3.length = 0 then none else some (l3.length - 1)⟩
+/-- The prefix `"_" * k + "v"` as characters. -/
+def tmpPrefix (k : Nat) : List Char := List.replicate k '_' ++ ['v']
 
-/-- The python identifier `v{i}`. -/
-def vname (i : Nat) : String := "v" ++ Nat.repr i
+/-- The python identifier of temporary `i` under prefix `k`. -/
+def tmpName (k i : Nat) : List Char := tmpPrefix k ++ (Nat.repr i).toList
+
+/-- `v = "v"; while any(name.startswith(v) for name in self.inputs): v = "_" + v` (`none` = out of fuel). -/
+def choosePrefix (inputs : List String) : Nat → Nat → Option Nat
+  | 0, _ => none
+  | fuel + 1, k =>
+    if inputs.any (fun n => (tmpPrefix k).isPrefixOf n.toList) then choosePrefix inputs fuel (k + 1)
+    else some k
+
+/-- One more than the longest input name: a prefix that long is a prefix of no input. -/
+def prefixFuel (inputs : List String) : Nat := (inputs.map (fun n => n.toList.length)).foldl max 0 + 2
+
+def asCode (p : Prog) : Except Err Code :=
+  if p.inputs.any (fun n => n = "ops" || n = "set_backend") then .error (.reserved)     -- ValueError
+  else
+    match choosePrefix p.inputs (prefixFuel p.inputs) 0 with
+    | none => .error .fuel
+    | some k =>
+      let l1 := p.constants.foldl (fun ls c => codeLet ls (.const c)) []
+      let l2 := p.inputs.foldl (fun ls n => codeLet ls (.name n)) l1
+      let l3 := p.operations.foldl (fun ls o => codeLet ls (.call o.1 o.2)) l2
+      .ok ⟨p.inputs, k, l3, if l3.length = 0 then none else some (l3.length - 1)⟩
+
+/-- The local namespace of the printed function: parameters AND temporaries, keyed by identifier. -/
+abbrev Locals (V : Type) := List (List Char × V)
 
 /-- Keyword call of `def f(params)`: every parameter must be given, nothing else may be. -/
-def bindParams {V : Type} : List String → Kw V → Kw V → Except Err (Kw V)
+def bindParams {V : Type} : List String → Kw V → Locals V → Except Err (Locals V)
   | [], kw, loc => if kw ≠ [] then .error (.unrecognized (kwKeys kw)) else .ok loc
   | n :: ns, kw, loc =>
     match kwGet kw n with
     | none => .error (.missing n)
-    | some v => bindParams ns (kwErase kw n) (dSet loc n v)
+    | some v => bindParams ns (kwErase kw n) (dSet loc n.toList v)
 
-def readNames {V : Type} (loc : Kw V) : List Nat → Except Err (List V)
+def readNames {V : Type} (loc : Locals V) (k : Nat) : List Nat → Except Err (List V)
   | [] => .ok []
   | i :: is =>
-    match dGet loc (vname i) with
-    | none => .error (.name (vname i))
+    match dGet loc (tmpName k i) with
+    | none => .error (.name (String.ofList (tmpName k i)))
     | some v =>
-      match readNames loc is with
+      match readNames loc k is with
       | .error e => .error e
       | .ok vs => .ok (v :: vs)
 
 /-- Straight-line execution in ONE local namespace (parameters and temporaries share it). -/
-def execLets {V : Type} (I : Interp V) : List (Nat × Rhs) → Kw V → Except Err (Kw V)
+def execLets {V : Type} (I : Interp V) (k : Nat) : List (Nat × Rhs) → Locals V → Except Err (Locals V)
   | [], loc => .ok loc
   | (i, r) :: rest, loc =>
     match r with
-    | .const k => execLets I rest (dSet loc (vname i) (I.const k))
+    | .const c => execLets I k rest (dSet loc (tmpName k i) (I.const c))
     | .name s =>
-      match dGet loc s with
+      match dGet loc s.toList with
       | none => .error (.name s)
-      | some v => execLets I rest (dSet loc (vname i) v)
+      | some v => execLets I k rest (dSet loc (tmpName k i) v)
     | .call tag args =>
-      match readNames loc args with
+      match readNames loc k args with
       | .error e => .error e
       | .ok vs =>
         match applyOp I tag vs with
         | .error e => .error e
-        | .ok v => execLets I rest (dSet loc (vname i) v)
+        | .ok v => execLets I k rest (dSet loc (tmpName k i) v)
 
 def execCode {V : Type} (I : Interp V) (c : Code) (kw : Kw V) : Except Err V :=
   match bindParams c.params kw [] with
   | .error e => .error e
   | .ok loc =>
-    match execLets I c.lets loc with
+    match execLets I c.pfx c.lets loc with
     | .error e => .error e
     | .ok loc' =>
       match c.ret with
       | none => .error (.name "v")
       | some i =>
-        match dGet loc' (vname i) with
-        | none => .error (.name (vname i))
+        match dGet loc' (tmpName c.pfx i) with
+        | none => .error (.name (String.ofList (tmpName c.pfx i)))
         | some v => .ok v
+
+/-- The printed code before commit e099338: the prefix was always `v`, whatever the inputs are called. -/
+def asCodeOld (p : Prog) : Code :=
+  let l1 := p.constants.foldl (fun ls c => codeLet ls (.const c)) []
+  let l2 := p.inputs.foldl (fun ls n => codeLet ls (.name n)) l1
+  let l3 := p.operations.foldl (fun ls o => codeLet ls (.call o.1 o.2)) l2
+  ⟨p.inputs, 0, l3, if l3.length = 0 then none else some (l3.length - 1)⟩
 
 /-! ## trace_function (funsor/ops/tracer.py:48-87)
 
